@@ -180,6 +180,7 @@ def check(case, mon, ctx):
             mon.violation('no-exception', dict(w, exception=out), mechanism=mech)
             continue
         ids = [r.id for r in out.regions]
+        mon.observe('order ' + name, ids)
         if sorted(ids) != sorted(before) or len(ids) != len(before):
             mon.violation('permutation-of-input-regions', dict(w, got=ids, expected=sorted(before)))
             continue
